@@ -8,6 +8,10 @@ import PqlModel.Props.C05ParseStatement
 import PqlModel.Props.C02EndToEnd
 import PqlModel.Props.C05Parsed
 import PqlModel.Props.C02EndToEndSource
+import PqlModel.Props.C05WriteIR
+import PqlModel.Props.C05WriteIROps
+import PqlModel.Props.C05WriteIRAll
+import PqlModel.Props.C05WriteIRStmt
 #print axioms Pql.C05.C05_ends_with_semicolon
 #print axioms Pql.C05.C05_subqueryName_injective
 #print axioms Pql.C05.C05_chain_names_by_index
@@ -88,3 +92,28 @@ import PqlModel.Props.C02EndToEndSource
 #print axioms Pql.ParsedOK.fnNamesOK_needed
 #print axioms Pql.ParsedOK.compile_needed
 #print axioms Pql.ParsedOK.empty_quoted_name
+#print axioms Pql.WriteIR.forEach_collect
+#print axioms Pql.WriteIR.suffix_exec
+#print axioms Pql.WriteIR.interpWrite_of
+#print axioms Pql.WriteIR.C05_write_none
+#print axioms Pql.WriteIR.C05_write_as
+#print axioms Pql.WriteIR.C05_write_count
+#print axioms Pql.WriteIR.C05_write_where
+#print axioms Pql.WriteIR.C05_write_project
+#print axioms Pql.WriteIR.C05_write_extend
+#print axioms Pql.WriteIR.C05_write_summarize
+#print axioms Pql.WriteIR.C05_write_render
+#print axioms Pql.WriteIR.C05_write_default
+#print axioms Pql.WriteIR.C05_write_ir
+#print axioms Pql.WriteIR.C05_write_project_needs_names
+#print axioms Pql.WriteIR.C05_write_extend_needs_expr
+#print axioms Pql.WriteIR.C05_write_render_needs_ok
+#print axioms Pql.WriteIR.compileChunks_eq
+#print axioms Pql.WriteIR.C05_assembly_ir
+#print axioms Pql.WriteIR.C05_quoteIdentifier_ir
+#print axioms Pql.WriteIR.C05_quoteSQLString_ir
+#print axioms Pql.WriteIR.C05_subqueryName_ir
+#print axioms Pql.WriteIR.C05_dataSource_ir
+#print axioms Pql.WriteIR.C05_dataSource_needs_table
+#print axioms Pql.WriteIR.C05_ir_keys
+#print axioms Pql.WriteIR.C05_ir_switches
